@@ -12,7 +12,7 @@ V = os.path.dirname(os.path.dirname(os.path.abspath(__file__)))
 sys.path.insert(0, V)
 from jslstatic.selftest import patches  # noqa: E402
 
-EXPECTED_MISSES = {"C05-s2", "C14-s2", "C07-u2VD", "C11-u2VI", "C14-u2VE", "C04-v1XC", "C04-v2XC", "C05-v2XH", "C11-v2XI", "C14-v1XF", "C04-w2ZC", "C11-w1ZI", "C14-w2ZE", "C15-w1ZG", "C03-x1NI", "C03-x2NI", "C04-x1NC", "C05-x1NH", "C07-x1ND", "C07-x2ND", "C13-x1NG", "C13-x2NG", "C14-x2NB", "C16-x2ND", "C20-x2NC"}
+EXPECTED_MISSES = set(json.load(open(os.path.join(os.path.dirname(os.path.dirname(os.path.abspath(__file__))), "seeded", "EXPECTED_MISSES.json")))["ids"])
 
 
 def one(pid):
@@ -41,6 +41,8 @@ def main():
     bad = 0
     n_ref = n_seed = n_det = n_stale = n_refused = 0
     refusals = patches.load_refusals()
+    features = patches.load_features()
+    n_feat = 0
     expect = {}
     for kind, pid, st, res in results:
         if st != "ran":
@@ -50,7 +52,15 @@ def main():
         if kind == "refactor":
             n_ref += 1
             documented = refusals.get(pid, set())
-            alarms = {p: cm for p, cm in res.items() if not (cm[0] == 2 and p in documented)}
+            want = features.get(pid, {})
+            for p_, rules_ in want.items():
+                c_, m_ = res.get(p_, (0, ""))
+                if c_ == 1 and any(r in m_ for r in rules_):
+                    n_feat += 1
+                else:
+                    bad += 1
+                    print(f"  MISSED feature {pid}: {p_} should report {rules_}, got exit {c_}: {m_[:120]}")
+            alarms = {p: cm for p, cm in res.items() if not (cm[0] == 2 and p in documented) and p not in want}
             n_refused += sum(1 for p, cm in res.items() if cm[0] == 2 and p in documented)
             if alarms:
                 bad += 1
@@ -66,7 +76,7 @@ def main():
             elif pid not in EXPECTED_MISSES:
                 bad += 1
                 print(f"  MISSED seeded {pid}: no check reports it (analysis errors: {errs})")
-    print(f"patch corpus: {n_ref} refactors silent-checked ({n_refused} documented refusals), {n_seed} seeded ({n_det} detected), {n_stale} stale, {bad} problems, {time.time() - t0:.0f}s")
+    print(f"patch corpus: {n_ref} refactors silent-checked ({n_refused} documented refusals, {n_feat} expected feature reports), {n_seed} seeded ({n_det} detected), {n_stale} stale, {bad} problems, {time.time() - t0:.0f}s")
     if "--record" in sys.argv and which in ("all", "seeded") and not n_stale:
         with open(patches.EXPECT, "w", encoding="utf-8") as fh:
             json.dump(dict(sorted(expect.items())), fh, indent=1)
